@@ -75,4 +75,13 @@ def lookup {α : Type} (d : List (String × α)) (k : String) : M α :=
 /-- `k in d` -/
 def hasKey {α : Type} (d : List (String × α)) (k : String) : Bool := d.any (fun p => p.1 == k)
 
+/-- a Decimal that may be `Decimal("inf")` -/
+inductive XDec
+  | fin (r : Rat)
+  | inf
+  deriving DecidableEq, Repr
+
+/-- `sum(xs)` of Decimals: starts from the int 0 and adds left to right; every `+` rounds (also the first, `0 + x`) -/
+def dsum (cx : NumCtx) (xs : List Rat) : Rat := xs.foldl (fun acc x => cx.add acc x) 0
+
 end Demeter.Py
